@@ -41,7 +41,7 @@ def behaviours(ctx, n, depth):
     # a hand-shaped behaviour that is always included: spend, flush, conflicting longer branch (reorg across the flush), flush
     fixed = dict(init=behs[0]["init"] if behs else None, steps=[dict(a=a) for a in (
         ["mine", 0, [1], "zero", 1], ["flush"], ["mine", 1, [3], "max", 1], ["mine", 0, [2], "zero", 1], ["mine", 3, [], "zero", 1],
-        ["mine", 4, [1, 3], "zero", 1], ["flush"], ["invalidate", 3], ["flush"], ["reconsider", 3])])
+        ["mine", 4, [], "zero", 1], ["flush"], ["invalidate", 3], ["flush"], ["reconsider", 3])])
     return uni, [fixed] + behs
 
 
@@ -62,17 +62,18 @@ def run(ctx):
     # ---- code level
     quick = ctx.tier == "quick"
     uni, behs = behaviours(ctx, 3 if quick else 24, 9)
-    behs = behs[:4] if quick else behs
+    behs = behs[:2] if quick else behs
     stride = 1
     upath = os.path.join(ctx.work, "universe.json"); json.dump(uni, open(upath, "w"))
     env = dict(os.environ); env["TMPDIR"] = ctx.tmp
-    jobs = []          # (label, image dir, beh path, line skeleton)
+    jobs = []          # (image dir, beh path, line skeleton)
+    nested = []        # (image as {relative path: bytes}, beh path, line skeleton) for second-level crashes
     per_mode = collections.Counter(); outcomes = collections.Counter()
     for bi, beh in enumerate(behs):
         bpath = os.path.join(ctx.work, "beh%d.json" % bi); json.dump(dict(steps=beh["steps"]), open(bpath, "w"))
         trace = os.path.join(ctx.work, "trace%d.txt" % bi)
         p = subprocess.run(["timeout", "600", "strace", "-f", "-y", "-xx", "-s", "8000000", "-o", trace, "-e", "trace=" + crashfs.SYSCALLS,
-                            binary, "workload", bpath, upath, "200"], capture_output=True, text=True, env=env, cwd=ctx.tmp)
+                            binary, "workload", bpath, upath, "64"], capture_output=True, text=True, env=env, cwd=ctx.tmp)
         wl = [json.loads(l) for l in p.stdout.splitlines() if l.startswith('{"kind":"workload"')]
         if p.returncode != 0 or not wl:
             raise vflib.InfraError("workload run failed: rc=%s %s" % (p.returncode, (p.stderr or p.stdout)[-800:]))
@@ -118,6 +119,7 @@ def run(ctx):
             fs.apply(call, args, ret, i)
             if i not in want:
                 continue
+            last_op_path = fs.ops[-1][2] if fs.ops else ""
             done = [j for j in step_end if step_end[j] <= i]
             cur = [j for j in step_begin if step_begin[j] <= i and step_end.get(j, 10 ** 12) > i]
             upto = max(done + cur) if (done or cur) else -1
@@ -125,14 +127,29 @@ def run(ctx):
             for j in range(0, upto + 1):
                 if tips[j] >= 0:
                     conn |= anc_ids(world["blk"], tips[j])
-            flushed = [j for j in done if beh["steps"][j]["a"][0] == "flush"]
-            lastflush = tips[max(flushed)] if flushed else 0
+            # blocks under a manual invalidation at the crash point: invalidate steps that had started, minus reconsider steps that
+            # had completed (a manual invalidation legitimately lowers the work the node returns to)
+            minv = set()
+            for j in sorted(set(done + cur)):
+                a = beh["steps"][j]["a"]
+                if a[0] == "invalidate":
+                    minv.add(a[1])
+                elif a[0] == "reconsider" and j in done:
+                    minv = {x for x in minv if not (x in anc_ids(world["blk"], a[1]) or a[1] in anc_ids(world["blk"], x))}
+            flushed = [j for j in sorted(done) if beh["steps"][j]["a"][0] == "flush" and tips[j] >= 0 and not (anc_ids(world["blk"], tips[j]) & minv)]
+            lastflush = tips[flushed[-1]] if flushed else 0
             for mi, (mode, keep) in enumerate(MODES):
                 img = os.path.join(ctx.work, "img", "b%d_p%d_m%d" % (bi, i, mi))
-                fs.dump(fs.image(mode, keep), img)
+                image = fs.image(mode, keep)
+                fs.dump(image, img)
+                if mi == 0 and cur and "/chainstate/" in last_op_path and (not quick or (bi == 0 and beh["steps"][cur[0]]["a"][0] == "flush")):
+                    # candidate for a second crash *during the recovery* from this image (kill images taken inside a step)
+                    nested.append((dict((p[len(root):], b) for p, b in image.items()), bpath, None))
                 skel = dict(world=world, inv=[], act=["crash", bi, i, MODE_NAMES[mi]], exp=dict(tip=0), conn=sorted(conn), lastflush=lastflush,
                             where=("during step %d %s" % (cur[0], beh["steps"][cur[0]]["a"][0]) if cur else "between steps"))
                 jobs.append((img, bpath, skel))
+                if mi == 0 and cur and "/chainstate/" in last_op_path and (not quick or (bi == 0 and beh["steps"][cur[0]]["a"][0] == "flush")):
+                    nested[-1] = (nested[-1][0], bpath, skel)
                 per_mode[MODE_NAMES[mi]] += 1
     ctx.log("%d workloads, %d crash images" % (len(behs), len(jobs)))
     # ---- restart a node on every image
@@ -159,6 +176,51 @@ def run(ctx):
         return line
     with concurrent.futures.ThreadPoolExecutor(max_workers=vflib.free_cpus()) as ex:
         lines = list(ex.map(recover, jobs))
+
+    # ---- second level: crash the *recovery run* itself (its replay / flush writes), then restart once more
+    def second_level(item):
+        n, (image, bpath, skel) = item
+        img1 = os.path.join(ctx.work, "img2", "n%d_base" % n)
+        f0 = crashfs.FS("/x"); f0.files = {"/x" + rel: bytearray(b) for rel, b in image.items()}
+        f0.dump({p: bytes(b) for p, b in f0.files.items()}, img1)
+        trace = os.path.join(ctx.work, "img2", "n%d.trace" % n)
+        pr = subprocess.run(["timeout", "300", "strace", "-f", "-y", "-xx", "-s", "8000000", "-o", trace, "-e", "trace=" + crashfs.SYSCALLS,
+                             binary, "recover", bpath, upath, img1], capture_output=True, text=True, env=env, cwd=ctx.tmp)
+        got = [json.loads(l) for l in pr.stdout.splitlines() if l.startswith('{"kind":"recovered"')]
+        out = []
+        if not got or "datadir" not in got[0]:
+            return out
+        root2 = got[0]["datadir"]
+        calls = list(crashfs.parse(trace))
+        start = next((i for i, c in enumerate(calls) if c[3] == "VF:preload:end"), None)
+        if start is None:
+            return out
+        fs2 = crashfs.FS(root2, preload=image)
+        pts = []
+        for i in range(start + 1, len(calls)):
+            call, args, ret, m = calls[i]
+            before = len(fs2.ops)
+            fs2.apply(call, args, ret, i)
+            if len(fs2.ops) > before and "/chainstate/" in fs2.ops[-1][2] and fs2.ops[-1][1] == "write" and fs2.ops[-1][2].endswith(".log"):
+                pts.append(i)        # every batch the recovery writes to the coins database log
+        fs2 = crashfs.FS(root2, preload=image); want = set(pts)
+        for i in range(start + 1, len(calls)):
+            call, args, ret, m = calls[i]
+            fs2.apply(call, args, ret, i)
+            if i in want:
+                for mi, (mode, keep) in enumerate(MODES[:2]):
+                    img2 = os.path.join(ctx.work, "img2", "n%d_p%d_m%d" % (n, i, mi))
+                    fs2.dump(fs2.image(mode, keep), img2)
+                    sk = dict(skel); sk["act"] = ["crash-during-recovery", skel["act"][1], skel["act"][2], MODE_NAMES[mi], i]
+                    sk["where"] = skel["where"] + ", then again at syscall %d of the recovery run" % i
+                    out.append(recover((img2, bpath, sk)))
+        import shutil
+        shutil.rmtree(img1, ignore_errors=True)
+        return out
+    with concurrent.futures.ThreadPoolExecutor(max_workers=max(1, vflib.free_cpus() // 2)) as ex:
+        for res2 in ex.map(second_level, enumerate(nested)):
+            lines.extend(res2)
+    ctx.extra["second_level_crash_images"] = sum(1 for l in lines if l["act"][0] == "crash-during-recovery")
     for l in lines:
         outcomes[(l["act"][3], "ok" if l["load"] == "ok" else l["load"][:60])] += 1
         ctx.nontrivial.add(vflib.digest([l["act"], l["where"]]))
